@@ -47,7 +47,9 @@ class _NoShuffle:
 
     @staticmethod
     def randint(a, b):
-        return a
+        # deterministic, and different from every id in the spec domain (0, 1, 0xFFFF): a random
+        # id taken where the caller's id should have been used must show
+        return min(b, a + 0x5A5A)
 
 
 dns.rdataset.random = _NoShuffle
